@@ -166,7 +166,8 @@ func (w *watcher) Cancel(id int64, err error, compact bool) {
 	tags = append(tags, metrics.Tag("compact", strconv.FormatBool(compact)))
 	w.metricCli.EmitCounter("watch.cancel", 1, tags...)
 	w.Lock()
-	if c, ok := w.watches[id]; ok {
+	c, ok := w.watches[id]
+	if ok {
 		klog.InfoS("cancel context", "watcher", w.id, "watch", id, "start", c.start, "end", c.end)
 		if c.cancel != nil {
 			c.cancel()
@@ -174,6 +175,12 @@ func (w *watcher) Cancel(id int64, err error, compact bool) {
 		delete(w.watches, id)
 	}
 	w.Unlock()
+	if !ok {
+		// the watch has been cancelled before (a cancel request of the client followed by the watch goroutine
+		// noticing its cancelled context, or the other way round) and the cancel response has been sent then:
+		// a second one makes the client close the watch twice
+		return
+	}
 	// if compact is true, apiserver reflector watch will return with err, which will trigger re-list & re-watch (detail in etcd/clientv3/watch.go watchGrpcStream.run)
 	// else, apiserver reflector watch will return nil, which will trigger re-watch
 	var compactRevision int64
